@@ -504,7 +504,7 @@ func spec() corr.Spec {
 			}
 			return idx > 3 && !strings.HasPrefix(c.Lines[0], "remap 1 ") && c.Lines[0] != "remap 1"
 		},
-		Rule: "routing scripts: SimpleIndex/XHashIndex on keys of every supported type (all integer widths with min/max/-1/0, HitGroup and Bs implementers, strings, byte slices, one unsupported type) and SearchIndex on boundary hashes y(i+1)-1, y(i+1), y(i+1)+1, 0, MaxUint64 and random ones, for shard counts {1,2,3,64,73,211,1000} and random counts <= 5000; container scripts: the same Set/Get/Peek/Exist/Delete sequence on a sharded map / LRU / tiny LRU and on its unsharded twin; lock scripts: acquire+release twice through KeyLockerGrp, TKeyLockerGrp, WideSemMap; non-trivial = more than 3 answered operations and more than one shard",
+		Rule: "route-keys: SimpleIndex/XHashIndex on keys of every supported type (all integer widths with min/max/-1/0, HitGroup and Bs implementers, strings and byte slices of 0..4096 bytes, one unsupported type); partition: SearchIndex on boundary hashes y(i+1)-1, y(i+1), y(i+1)+1, 0, MaxUint64, above y*n and random ones; shard counts {1,2,3,64,73,211,1000} and random counts <= 5000; container-*: the same Set/Get/Peek/Exist/Delete sequence on a sharded map / LRU / tiny LRU and its unsharded twin; single-lock-*: one key of any type, acquire+release twice through KeyLockerGrp, TKeyLockerGrp, WideSemMap; wide-*: wide LRU (both packages) against one plain LRU per shard, colliding integer keys, per-shard capacity 1..3; locks-*: scheduler-driven scripts mixing Lock/RLock/Locks/RLocks (one- and multi-element) and releases through another API on group and unsharded locker, primes {1,2,3,73}, both routings; malformed: ill-formed lines; non-trivial = more than 3 answered operations and more than one shard",
 		Assumptions: []string{
 			"xxhash is a deterministic function of the key's bytes (its value is read from the real package into the script; not modelled)",
 			"sort.Search is the binary search of the Go library (modelled); slices of 2^63 or more shards cannot be allocated, so n < 2^63",
